@@ -68,8 +68,8 @@ def arg_rule(dec: str, A: str, kind: int, in_class: bool, is_lambda: bool) -> bo
 def obligations(tier, seed):
     t = 900 if tier == 'quick' else 2400
     return [
-        dict(name='C04.interface_names', fn='interface_names', shards=plan(skeletons.TEMPLATES, tier, seed + 1, 24), timeout=t,
-             bounds='see META; quick = seeded rotation of 24 skeletons', public_replay='public_interface_names'),
+        dict(name='C04.interface_names', fn='interface_names', shards=plan(skeletons.TEMPLATES, tier, seed + 1, 16), timeout=t,
+             bounds='see META; quick = seeded rotation of 16 skeletons', public_replay='public_interface_names'),
         dict(name='C04.interface_names_ann', fn='interface_names_ann', timeout=t,
              shards=[['k == %d' % k, 'len(A) == %d and len(B) == %d and len(C) == %d' % (L, L, L), '"." not in A and "." not in B and "." not in C', 'rl == True', 'rg == %s' % rg]
                      for k in range(len(skeletons.ANN_TEMPLATES)) for (L, rg) in (((1, True), (3, False)) if tier == 'quick' else ((1, True), (1, False), (3, True), (3, False)))],
